@@ -212,3 +212,17 @@ Definition covered_ok (declared : list (list Z)) (gs : list grp) : bool :=
 (* no group refers to an id that no request carries any more *)
 Definition no_stale (ids : list rid) (gs : list grp) : bool :=
   forallb (fun d => forallb (fun x => rid_mem x ids) (members d)) gs.
+
+(* ------------------------------------------------------------------ pieces named for the translator tie (Gen/DisjointGen.v) *)
+Definition search_cutoff : nat := 80.                     (* all_simple_paths(..., cutoff=80): at most 80 links *)
+(* step 2: a candidate pth1 (and its reverse) against an already chosen pth; accepted when 0 *)
+Definition step2_conflicts (pth1 pth1_reversed pth : list Z) : Z := isdisjoint pth1 pth + isdisjoint pth1_reversed pth.
+(* step 4: the include list is tested against the FULL element path of the candidate *)
+Definition step4_ok (nodes_list full_path short_path : list Z) : bool := ispart nodes_list full_path.
+Definition step4_strict (strict_list : list bool) : bool := existsb (fun b => b) strict_list.
+(* step 5: a group without candidate stops the computation *)
+Definition step5 (has_candidates : bool) : res unit := if has_candidates then Ok tt else Err "DisjunctionError".
+(* what compare_reqs compares besides the group shapes (= the signature the harness builds) *)
+Definition compared_attrs : list string :=
+  ["source"; "destination"; "bidir"; "tsp"; "tsp_mode"; "baud_rate"; "nodes_list"; "loose_list"; "spacing"; "power";
+   "nb_channel"; "f_min"; "f_max"; "format"; "OSNR"; "roll_off"; "tx_power"]%string.
